@@ -126,15 +126,19 @@ fn block(stmts: &[Stmt], depth: u32, ctx: &Ctx) -> u64 {
                 if after != before {
                     e.push(format!("interrupt flag after without_interrupts = {} but was {} before (depth {})", after, before, depth + 1));
                 }
+                // only cli/sti may be executed around the closure; which of them is implied by the flag
+                // conditions above (IF = 0 inside, IF restored afterwards), so an implementation that
+                // e.g. executes cli unconditionally is not rejected
                 let pre: Vec<Op> = cpu().log()[l0..*entry_log.borrow()].iter().map(|t| t.op).collect();
                 let post: Vec<Op> = cpu().log()[*exit_log.borrow()..l1].iter().map(|t| t.op).collect();
-                let want_pre: Vec<Op> = if before { vec![Op::Cli] } else { vec![] };
-                let want_post: Vec<Op> = if before { vec![Op::Sti] } else { vec![] };
-                if pre != want_pre {
-                    e.push(format!("before the closure (flag was {}): trapped {:?}, expected {:?}", before, pre, want_pre));
+                if pre.iter().chain(post.iter()).any(|o| !matches!(o, Op::Cli | Op::Sti)) {
+                    e.push(format!("without_interrupts executed something other than cli/sti: before the closure {:?}, after it {:?}", pre, post));
                 }
-                if post != want_post {
-                    e.push(format!("after the closure (flag was {}): trapped {:?}, expected {:?}", before, post, want_post));
+                if before && !pre.contains(&Op::Cli) {
+                    e.push(format!("interrupts were enabled at entry but no cli was executed before the closure: {:?}", pre));
+                }
+                if !before && (pre.contains(&Op::Sti) || post.contains(&Op::Sti)) {
+                    e.push(format!("interrupts were disabled at entry but sti was executed: before {:?}, after {:?}", pre, post));
                 }
                 val ^= ret.rotate_left(7);
             }
@@ -236,7 +240,7 @@ pub fn run(run: &mut Run) {
     let n = run.cases(240_000, 9_000_000);
     run.sub(
         "nesting",
-        "initial IF in {0,1} x other RFLAGS bits shown by the overlay (IOPL, DF, OF, NT, RF, VM, AC, VIF, VIP, ID, unmodelled bits) x programs from Block := Stmt*; Stmt := Nested(Block) | Probe | BalancedToggle | Value(u64) | EnableDisable (depth <= 6, <= 40 nodes) interpreted with real nested closures around without_interrupts; oracle: closure runs exactly once with IF=0, result returned, IF after = IF before, trap trace = [cli] before and [sti] after iff IF was 1 at entry, enable/disable = exactly one sti/cli and no other emulated register changes, are_enabled = emulated IF; non-trivial = nesting depth >= 2 with IF=0 at entry of some without_interrupts (the branch user space can never reach natively); distinct by (initial IF, statement shape)",
+        "initial IF in {0,1} x other RFLAGS bits shown by the overlay (IOPL, DF, OF, NT, RF, VM, AC, VIF, VIP, ID, unmodelled bits) x programs from Block := Stmt*; Stmt := Nested(Block) | Probe | BalancedToggle | Value(u64) | EnableDisable (depth <= 6, <= 40 nodes) interpreted with real nested closures around without_interrupts; oracle: closure runs exactly once with IF=0, result returned, IF after = IF before, only cli/sti are executed around the closure (cli if IF was 1, never sti if IF was 0), enable/disable = exactly one sti/cli and no other emulated register changes, are_enabled = emulated IF; non-trivial = nesting depth >= 2 with IF=0 at entry of some without_interrupts (the branch user space can never reach natively); distinct by (initial IF, statement shape)",
         n,
         (any::<bool>(), proptest::collection::vec(stmt(), 0..6), prop_oneof![Just(0u64), any::<u64>(), Just(u64::MAX)], any::<u64>()),
         prog,
